@@ -494,6 +494,9 @@ func (ctrl *DefaultController) createTransaction(ctx context.Context, store Stor
 	if len(result.Postings) == 0 {
 		return nil, ErrNoPostings
 	}
+	if _, err := result.Postings.Validate(); err != nil {
+		return nil, newErrCompilationFailed(fmt.Errorf("script produced an invalid posting: %w", err))
+	}
 
 	finalMetadata := result.Metadata
 	if finalMetadata == nil {
